@@ -128,10 +128,29 @@ def rand_value_tokens(r, ver):
 VERSION = 2          # family `writeval11` (tools/gen/writeval11.py) is this module with VERSION = 1
 
 
+def table_at_column(r, ver):
+    """a table whose first key starts at a chosen column near the end of the line (the data name sets the column)"""
+    name = "_" + "n" * (r.randint(2020, 2047) - 1)
+    keys = ["a'b\"c", "\U0001f600", "k", "k" * r.randint(1, 30), "\U0001f600" * r.randint(1, 6), "x'y\"" + "z" * r.randint(0, 12), ""]
+    toks = ["{"]
+    seen = set()
+    for _ in range(r.randint(1, 3)):
+        k = r.choice(keys)
+        if k in seen:
+            continue
+        seen.add(k)
+        toks += ["K:" + hexs(k)] + r.choice([["U"], ["N"], ["M0:" + hexs("12")], ["C1:" + hexs("v")], ["C0:" + hexs("v")], ["{", "}"], ["[", "]"]])
+    return name, toks + ["}"]
+
+
 def generate_for(ver, family, seed, tier):
     r = rng(seed, family)
     n = 1200 if tier == "quick" else 60000
     for _ in range(n):
+        if ver != 1 and r.random() < 0.05:
+            name, toks = table_at_column(r, ver)
+            yield "writeval %d %s %s" % (ver, hexs(name), " ".join(toks))
+            continue
         yield "writeval %d %s %s" % (ver, hexs(rand_name(r)), " ".join(rand_value_tokens(r, ver)))
 
 
